@@ -181,6 +181,10 @@ fn gen_c04(cfg: &GenCfg, rng: &mut Rng, w: &mut dyn Write, kind: &str) {
         }
         writeln!(w, "case c04-n3-o{}", oi).unwrap();
         prelude(w, n, order, 1, 1024, true);
+        if !zbdd(kind) && oi == 0 {
+            // substitution objects created by several threads at once: pairwise distinct identifiers
+            writeln!(w, "substids 4 {} f{} {}", if cfg.thorough { 20000 } else { 6000 }, 0x96, 1).unwrap();
+        }
         let cubes = all_cubes(w, n);
         // restrict with every literal cube
         for f in 0..nf {
@@ -833,6 +837,10 @@ fn gen_c06(cfg: &GenCfg, rng: &mut Rng, w: &mut dyn Write, kind: &str) {
                 writeln!(w, "cube cb{}{}", i, lb).unwrap();
                 writeln!(w, "cube cs{}{}", i, ls).unwrap();
                 let (first, second) = if r2.chance(1, 2) { ("b", "s") } else { ("s", "b") };
+                if !zbdd(kind) && i == 0 && cache == 16 {
+                    // the numeric key component of `substitute`: identifiers handed out concurrently
+                    writeln!(w, "substids 2 {} {} {}", if cfg.thorough { 20000 } else { 4000 }, f, r2.below(n_now as u64)).unwrap();
+                }
                 if !zbdd(kind) {
                     for q in ["exists", "forall", "unique"] {
                         writeln!(w, "quant r1 {} {} v{}{}", q, f, first, i).unwrap();
